@@ -5,6 +5,7 @@ use crate::geom::*;
 use crate::monitors::*;
 use crate::props_a::*;
 use crate::props_b::*;
+use crate::props_c::*;
 use crate::util::Rng;
 use serde_json::Value;
 
@@ -22,6 +23,12 @@ pub fn worker(ctx: &mut Ctx) {
         "C10" => c10_worker(ctx),
         "C11" => c11_worker(ctx),
         "C12" => c12_worker(ctx),
+        "C13" => c13_worker(ctx),
+        "C14" => c14_worker(ctx),
+        "C15" => c15_worker(ctx),
+        "C16" => c16_worker(ctx),
+        "C17" => c17_worker(ctx),
+        "C18" => c18_worker(ctx),
         p => panic!("no worker for {}", p),
     }
 }
@@ -35,6 +42,12 @@ pub fn plan(prop: &str, _tier: Tier) -> Vec<(String, u64)> {
             Tier::Quick => vec![v("release", 8), v("dbg", 8), v("asan", 8), v("miri", 8)],
             Tier::Thorough => vec![v("release", 16), v("dbg", 16), v("asan", 16), v("miri", 16), v("valgrind", 8)],
         },
+        "C13" | "C14" | "C15" | "C16" => vec![v("release", 16)],
+        "C17" => match _tier {
+            Tier::Quick => vec![v("release", 8), v("dbg", 4), v("asan", 8), v("miri", 8)],
+            Tier::Thorough => vec![v("release", 16), v("dbg", 8), v("asan", 16), v("miri", 16), v("valgrind", 8)],
+        },
+        "C18" => vec![v("release", 16)],
         "C12" => match _tier {
             Tier::Quick => vec![v("release", 8), v("tsan", 8), v("miri", 4)],
             Tier::Thorough => vec![v("release", 16), v("tsan", 16), v("miri", 16)],
@@ -68,6 +81,12 @@ pub fn rule(prop: &str) -> (String, Vec<String>) {
         "C10" => format!("one evaluation = one f32-representable operand pair on which the C01/C02/C04/C05 monitors run with MultiPolygon<f32>, and on exact small-integer inputs the f32 result is compared coordinate for coordinate with the f64 result; {}; non-trivial = full sweep runs; distinct = hash of operands", domains),
         "C11" => "one evaluation = one triple (A,B,C) of regions on one exact tessellation (D1 grid / D2 lattice) x 16 operation pairs x 4 chain shapes ((A op B) op' C, C op' (A op B), (A op B) op' B, A op' (A op B)) compared with the pointwise combination at every face centroid; intermediates validated structurally; non-trivial = full sweep runs on (A,B); distinct = hash of the three operands".to_string(),
         "C12" => format!("one evaluation = one operand pair: bitwise operand snapshots around every call, 4 operations repeated after unrelated operations and heap perturbation, then 3 or 16 threads calling concurrently on Arc-shared operands with a recorded (thread, call, input-hash, output-hash) history checked offline; same workload under ThreadSanitizer and Miri (data-race detector); {}; every case non-trivial; distinct = hash of operands", domains),
+        "C13" => format!("one evaluation = one run of the public fill_queue + subdivide stages (f64; f32 on every fourth representable case) with the status observer installed: queue size and bounding boxes, link/flag/order of every event pair, exact pairwise relation of all final sub-segments (robust predicates on the stored doubles), chain coverage of every input edge on complete sweeps, and at every event the status structure walked in order (comparator strict on all pairs, lifetime by point, exact vertical order where separated); {}; non-trivial = full sweep; distinct = hash of (operands, operation, float)", domains),
+        "C14" => format!("one evaluation = one run of fill_queue + subdivide after which every final sub-segment with a clear pair of side points has in_out / other_in_out / edge type / in_result / result transition / coincident-twin bookkeeping / prev_in_result compared with operand membership of the two side points (independent even-odd oracle); {}; non-trivial = full sweep; distinct = hash of (operands, operation, float)", domains),
+        "C15" => format!("one evaluation = one operand pair x operation: Ord on all pairs (never Equal, antisymmetric, agreement with the specified x / y / right-before-left / angular / subject-first order evaluated with exact predicates) and all triples (<=120 events, else 10^5 sampled) of the events before and after subdivision; compare_segments on all pairs of left events with overlapping sweep lifetimes (never Equal, antisymmetric, agreement with the exact vertical order where separated, Equal on identity); {}; non-trivial = full sweep; distinct = hash of (operands, operation, float)", domains),
+        "C16" => "one evaluation = one pair of segments handed to the public possible_intersection on fresh events, in both argument orders, compared with the exact relation of the pair (disjoint / shared endpoint / crossing / T / identical / overlap) following the outcome table in DESIGN.md: return code, which segments were divided and where (bit-exact endpoint for T contacts, one common point inside both boxes within tolerance of the exact rational point for crossings, overlap endpoints for overlaps), queue growth, partner links and left/right flags of every piece, typing of coincident pieces incl. the follow-up call; 75% integer pairs < 2^25 biased to shared endpoints / T / collinear / vertical, 12.5% float pairs (f64,f32) in general position, 12.5% ulp-slope constructions around the known one-ulp bump; non-trivial = the two segments are not disjoint; distinct = hash of (coordinates, operands, float)".to_string(),
+        "C17" => "one evaluation = one checked transition of the exhaustive breadth-first exploration of every tree shape reachable over a small key universe (every insert/remove/get/next/prev/contains with every present and absent key from every shape, plus 7 terminal operations per shape: into_iter forward / backward / alternating / partially consumed, clear, extend) or one random history (60..1500 steps, key universes 3..1000, monotone and zig-zag runs) in lock-step with BTreeMap / BTreeSet with drop-counting keys and values, structural walks through the non-splaying hook, and reference-stability probes; run natively, with debug assertions, under AddressSanitizer, under Miri (Tree Borrows, leak check) and (thorough) valgrind; distinct = transition index / history parameters, all non-trivial".to_string(),
+        "C18" => "one evaluation = one child process performing one scenario (build in ascending / descending / zig-zag / random order then query+clear, drop, consume forward / backward, partially consume then drop, extend, set drop; early-stopping intersection and difference on combs of thin rectangles, f64 and f32) on the 8 MiB main stack and on a 2 MiB thread stack; the verdict is the child's exit status; distinct = (scenario, size, stack), all non-trivial".to_string(),
         _ => String::new(),
     };
     (r, common)
@@ -101,6 +120,12 @@ pub fn replay(r: &Value) -> Result<String, (String, String)> {
                 }
                 "C09" => c09_check(&case, f32_run, &mut Default::default()).map(|_| "far parts and shortcuts agree".to_string()),
                 "C10" => c10_check(&case, &mut Default::default()).map(|_| "f32 agrees".to_string()),
+                "C13" => c13_check(&case, op.unwrap(), f32_run, &mut Default::default()).map(|_| "planar subdivision".to_string()),
+                "C14" => c14_check(&case, op.unwrap(), f32_run, &mut Default::default()).map(|_| "flags agree".to_string()),
+                "C15" => {
+                    let mut rng = Rng::keyed(r["extra"]["seed"].as_u64().unwrap_or(1), "C15/triples", r["extra"]["stream"].as_u64().unwrap_or(0));
+                    c15_check(&case, op.unwrap(), f32_run, &mut Default::default(), &mut rng).map(|_| "orders consistent".to_string())
+                }
                 "C12" => {
                     let mut rng = Rng::keyed(1, "C12/replay", 0);
                     c12_check(&case, &mut rng, r["extra"]["threads"].as_u64().unwrap_or(3) as usize, 3, &mut Default::default()).map(|_| "pure and deterministic".to_string())
@@ -108,6 +133,22 @@ pub fn replay(r: &Value) -> Result<String, (String, String)> {
                 _ => Err(("harness".into(), format!("no replay for property {}", prop))),
             }
         }
+        "pair" => {
+            let pc = crate::pimon::PairCase::from_json(&r["pair"]);
+            match c16_check(&pc, r["exact_int"].as_bool().unwrap_or(false), &mut Default::default()) {
+                crate::pimon::PiVerdict::Ok => Ok("pair handled as specified".into()),
+                crate::pimon::PiVerdict::KnownN2(d) => Err(("n2".into(), d)),
+                crate::pimon::PiVerdict::Violation(m) => Err(("pair".into(), m)),
+            }
+        }
+        "splay-history" => {
+            let mut st = Default::default();
+            c17_history(r["seed"].as_u64().unwrap(), r["label"].as_str().unwrap(), r["index"].as_u64().unwrap(), r["steps"].as_u64().unwrap() as usize, r["universe"].as_i64().unwrap() as i32, &mut st)
+                .map(|_| "history agrees with the reference".to_string())
+                .map_err(|(m, log)| ("splay:history".to_string(), format!("{} ({})", m, log.join(" "))))
+        }
+        "splay-exhaustive" => crate::splaymon::exhaustive(r["k"].as_u64().unwrap() as u8, 0, 1, true).map(|x| format!("{} shapes, {} transitions agree", x.shapes, x.transitions)).map_err(|m| ("splay:exhaustive".to_string(), m)),
+        "c18" => c18_replay(r),
         "triple" => c11_check(&triple_from_json(r), &mut Default::default()).map(|_| "chains agree".to_string()),
         "generated" => {
             let prop = r["property"].as_str().unwrap_or("");
@@ -144,4 +185,56 @@ pub fn probe(v: &Value) {
         }
     }
     println!("operands_hash={}", operands_hash(&case.a, &case.b));
+}
+
+/// Listed known findings of one property (input entries carry their operands).
+pub fn known_inputs(prop: &str) -> Vec<Value> {
+    let text = std::fs::read_to_string("/verif/known_findings.json").unwrap_or_default();
+    let v: Value = serde_json::from_str(&text).unwrap_or(Value::Null);
+    v["findings"].as_array().map(|a| a.iter().filter(|f| f["property"] == prop && f["match"] == "input").cloned().collect()).unwrap_or_default()
+}
+
+/// Replays every listed input finding of the worker's property through `check` so that the KNOWN-FINDING
+/// line reflects the current tree. A different symptom on a listed input is an ordinary violation.
+pub fn run_known(ctx: &mut Ctx, check: &mut dyn FnMut(&crate::gen::Case, Op, bool) -> Result<(), (String, String)>) {
+    if ctx.shard != 0 || ctx.only_index.is_some() || ctx.variant == "miri" || ctx.variant == "valgrind" {
+        return;
+    }
+    let prop = ctx.prop.clone();
+    for f in known_inputs(&prop) {
+        let a = mp_from_json(&f["a"]);
+        let b = mp_from_json(&f["b"]);
+        let integer = is_integer_mp(&a, 3.0e7) && is_integer_mp(&b, 3.0e7);
+        let case = crate::gen::Case { family: "K-known", desc: format!("known finding {}", f["id"].as_str().unwrap_or("")), a, b, exact: false, exact_f32: false, integer, f32_ok: false, self_crossing: false, faces: vec![] };
+        if f["variant"].is_string() && f["variant"] != "any" && f["variant"] != ctx.variant.as_str() {
+            continue;
+        }
+        let ops: Vec<Op> = match f["operation"].as_str() {
+            Some("any") | None => OPS.to_vec(),
+            Some(o) => vec![Op::parse(o)],
+        };
+        let f32_run = f["float"] == "f32";
+        let mut reproduced = 0;
+        for op in &ops {
+            ctx.begin("known", 0, f["id"].as_str().unwrap_or(""));
+            ctx.cnt("known_finding_replays", 1);
+            match check(&case, *op, f32_run) {
+                Ok(()) => {}
+                Err((sym, detail)) => {
+                    if sym.starts_with(f["symptom"].as_str().unwrap_or("\u{0}")) {
+                        reproduced += 1;
+                    } else {
+                        ctx.violation(&sym, &format!("listed input {} fails with a symptom that is not the listed one: {}", f["id"].as_str().unwrap_or(""), detail), boolean_replay(&prop, &case, Some(*op), f32_run, crate::iface::Pairing::MM, serde_json::json!({})));
+                    }
+                }
+            }
+            ctx.end();
+        }
+        let line = if reproduced > 0 {
+            format!("KNOWN-FINDING: property={} {} {} [reproduces for {}/{} listed operations]", prop, f["id"].as_str().unwrap_or(""), f["what"].as_str().unwrap_or(""), reproduced, ops.len())
+        } else {
+            format!("KNOWN-FINDING: property={} {} {} [no longer reproduces on this tree]", prop, f["id"].as_str().unwrap_or(""), f["what"].as_str().unwrap_or(""))
+        };
+        ctx.violations.push(serde_json::json!({"property": prop, "symptom": format!("known:{}", f["id"].as_str().unwrap_or("")), "detail": line, "variant": ctx.variant, "replay": {}}));
+    }
 }
